@@ -37,9 +37,13 @@ class ModelSym(object):
         self.spatial = spatial
         self.calls = []
 
-    def blocks_for(self, x):
+    def blocks_for(self, x, aux=None):
         key = tuple((t, x[t].shape, tuple(pk(e) for e in x[t].elems)) for t in x.keys())
+        if aux is not None:
+            # a stateful model: every output element also depends on the auxiliary state it was handed
+            key = (key, ("state", aux))
         kid = sym_id(("appkey", key))
+        self.last = kid
         self.calls.append(kid)
         out = {}
         for t, c in self.out_channels.items():
@@ -52,7 +56,9 @@ class ModelSym(object):
 
     def __call__(self, x, aux=None):
         MI = self.it.get_module(GEOM).MultiImage
-        return MI(self.blocks_for(x), x.D, x.is_torus), aux
+        out = MI(self.blocks_for(x, aux), x.D, x.is_torus)
+        # the new state is an opaque function S of (input, old state); a stateless call (aux None) stays stateless
+        return out, (None if aux is None else ("S", self.last))
 
 
 def spec_step(order, blocks, pred, past, const):
@@ -77,6 +83,7 @@ def spec_step(order, blocks, pred, past, const):
 def worker(job):
     repo, D, order, dyn_c, const, past, n, entry = job[:8]
     emit = job[8] if len(job) > 8 else "input"
+    stateful = emit == "stateful"
     it, w = get_interp(repo)
     ml = it.get_module("ginjax.ml")
     sp = SPATIAL[D]
@@ -86,7 +93,7 @@ def worker(job):
         c = dyn_c.get(t, 0) * past + const.get(t, 0)
         blocks[t] = block("x", t, (c,), sp, D)
     # "for every model": a model may hand back its output types in any order
-    emit_order = list(order) if emit == "input" else list(reversed(order)) if emit == "reversed" else sorted(order)
+    emit_order = list(order) if emit in ("input", "stateful") else list(reversed(order)) if emit == "reversed" else sorted(order)
     out_c = {t: dyn_c[t] for t in emit_order if dyn_c.get(t, 0) > 0}
     x = make_multi(it, order, blocks, D, True)
     model = ModelSym(it, out_c, D, sp)
@@ -94,7 +101,7 @@ def worker(job):
     problems = []
     cdict = {t: c for t, c in const.items() if c > 0}
     if entry == "map":
-        res = attempt(lambda: ml.autoregressive_map(model, x, None, past, n, cdict))
+        res = attempt(lambda: ml.autoregressive_map(model, x, ("S0",) if stateful else None, past, n, cdict))
     else:
         def run_steps():
             cur = x
@@ -110,8 +117,11 @@ def worker(job):
     spec_model = ModelSym(it, out_c, D, sp)
     cur = dict(blocks)
     preds = []
+    state = ("S0",) if stateful and entry == "map" else None
     for i in range(n):
-        p = spec_model.blocks_for(PlainMI({t: cur[t] for t in order}, D, (True,) * D))
+        p = spec_model.blocks_for(PlainMI({t: cur[t] for t in order}, D, (True,) * D), state)
+        if state is not None:
+            state = ("S", spec_model.last)
         preds.append(p)
         cur = spec_step(order, cur, p, past, cdict)
     if isinstance(res, Rejected):
@@ -119,8 +129,8 @@ def worker(job):
         return dict(cfg=cfg, problems=problems)
     if entry == "map":
         out, aux = res
-        if aux is not None:
-            problems.append(("aux", "aux_data changed to %r" % (aux,), None))
+        if aux != state:
+            problems.append(("aux", "the auxiliary state handed back is %r, expected %s" % (aux, "None (none was given)" if state is None else "the state returned by the last of the %d model applications (each application must receive the state returned by the previous one)" % n), None))
         if not is_multi(out):
             problems.append(("type", "result is %s" % type(out).__name__, None))
         else:
@@ -186,6 +196,10 @@ def run(ctx):
                         if len([t for t in order if dict(dyn).get(tuple(t), 0) > 0]) >= 2 and (past, n) in ((1, 2), (2, 3), (3, 2)):
                             jobs.append((ctx.repo, D, order, dyn, const, past, n, entry, "reversed"))
                             jobs.append((ctx.repo, D, order, dyn, const, past, n, entry, "sorted"))
+                        if entry == "map" and (past, n) in ((1, 1), (1, 2), (2, 3), (3, 2), (2, 4)):
+                            # "n explicit applications of the model": a model with auxiliary state (batch statistics, a counter)
+                            # must see, at step t+1, the state it returned at step t
+                            jobs.append((ctx.repo, D, order, dyn, const, past, n, entry, "stateful"))
     results = ctx.pairs(worker, jobs)
     by = {}
     for job, r in results:
